@@ -946,6 +946,311 @@ Definition c06e_run (case obs : sx) : verdict :=
       if ok then (if sx_eqb m obs then Agree else Differ m) else Violates m
   end.
 
+(* ============================ end to end with STREAMS (which = 9 | 10) ==========================================
+   The real file input Plugin is the pipeline's input plugin (harness/c06/streams.go): a job resumed from the saved offsets
+   of SEVERAL streams starts at the smallest of them (an lz4 job: at a read buffer boundary in front of it), so the lines up
+   to the saved offset of their own stream are read again and must be recognised as delivered by their offset.
+
+   Go                                                           model
+   -----------------------------------------------------------  ----------------------------------------------------
+   job.offsets (pipeline.SliceMap: stream name -> offset)       saved = list (name * offset), [saved_get] = SliceMap.Get
+   Plugin.PassEvent (file.go): !exist -> true;                  [pass_event]: no saved offset -> true;
+       pass := event.Offset > savedOffset                           saved o -> o <? offset
+   Pipeline.In, CRI rows with antispam on:                      [in_shortcut]: saved o -> (0 <? o) && (offset <? o)
+       streamOffset > 0 && currentOffset < streamOffset -> drop     (ByStream = -1 when the stream is not saved)
+   decoder + stream_field of the pipeline settings              dc : bytes -> option (stream, payload, partial): what the
+                                                                decoder makes of the admitted bytes (None: undecodable,
+                                                                the event goes back to the pool); [json_decode] (the two
+                                                                line shapes the generators write), [cri_decode] (DecodeCRI)
+   jobProvider.commit: job.offsets[stream] = event.Offset       NOT in the state: an event of stream s is committed only
+                                                                after it passed, with an offset above saved(s) and below
+                                                                the offset of every later line, so no later decision
+                                                                depends on it ([sdeliver_upd], Proofs/WorkerStreams.v:
+                                                                committing at once = never committing)
+   truncateJob (the saved offsets lie behind the end of the     [saved_zero]: every saved offset becomes 0, position 0
+       file): job.offsets.Set(stream, 0) for every stream
+
+     which 9:  case = (fmt thr max cut ((#stream off) ...) #pre ((#append bufsz) ...))     fmt 0 json | 1 cri
+               obs  = (((event ...) ordered cur filepos #tail skip) ...)   event = (offset #stream #payload), sorted by offset;
+                      ordered = the events of every stream arrived in the order of their offsets
+     which 10: case = (fmt thr max cut ((#stream off) ...) (#frame ...) bufsz lsof)        lsof 0 | 1 (the file is read)
+               obs  = ((event ...) ordered cur #tail skip done)                                                            *)
+Definition saved := list (bytes * Z).
+Definition sevent := (Z * bytes * bytes)%type.                       (* event.Offset, stream name, payload *)
+Definition ev_off (e : sevent) : Z := fst (fst e).
+Definition ev_stream (e : sevent) : bytes := snd (fst e).
+
+Fixpoint saved_get (sv : saved) (s : bytes) : option Z :=
+  match sv with
+  | [] => None
+  | (n, o) :: r => if bytes_eqb n s then Some o else saved_get r s
+  end.
+
+Definition above (o : option Z) (off : Z) : bool := match o with None => true | Some x => x <? off end.
+Definition pass_event (sv : saved) (s : bytes) (off : Z) : bool := above (saved_get sv s) off.
+Definition in_shortcut (sv : saved) (s : bytes) (off : Z) : bool :=
+  match saved_get sv s with Some o => (0 <? o) && (off <? o) | None => false end.
+Definition saved_zero (sv : saved) : saved := map (fun p => (fst p, 0)) sv.
+
+Definition decoder := bytes -> option (bytes * bytes * bool).
+
+(* what Pipeline.In + PassEvent make of one (offset, data) handed over by the worker; sc = the CRI short-cut is active *)
+Definition sdeliver1 (dc : decoder) (sc : bool) (sv : saved) (c : wcfg) (e : emit) : list sevent :=
+  let '(out, _, ok) := check_input c (snd e) in
+  if ok then
+    match dc out with
+    | Some (s, p, partial) =>
+        if sc && negb partial && in_shortcut sv s (fst e) then []
+        else if pass_event sv s (fst e) then [(fst e, s, p)] else []
+    | None => []
+    end
+  else [].
+Definition sdeliver (dc : decoder) (sc : bool) (sv : saved) (c : wcfg) (es : list emit) : list sevent :=
+  flat_map (sdeliver1 dc sc sv c) es.
+
+(* the admitted and decoded lines, whatever was delivered before *)
+Definition sdecoded1 (dc : decoder) (c : wcfg) (e : emit) : list sevent :=
+  let '(out, _, ok) := check_input c (snd e) in
+  if ok then match dc out with Some (s, p, _) => [(fst e, s, p)] | None => [] end else [].
+Definition sdecoded (dc : decoder) (c : wcfg) (es : list emit) : list sevent := flat_map (sdecoded1 dc c) es.
+
+(* the other extreme of the commit timing: every delivered event is committed before the next line is handed over *)
+Fixpoint saved_set (sv : saved) (s : bytes) (o : Z) : saved :=
+  match sv with
+  | [] => [(s, o)]
+  | (n, x) :: r => if bytes_eqb n s then (n, o) :: r else (n, x) :: saved_set r s o
+  end.
+Definition commit_all (sv : saved) (evs : list sevent) : saved :=
+  fold_left (fun a e => saved_set a (ev_stream e) (ev_off e)) evs sv.
+Fixpoint sdeliver_upd (dc : decoder) (sc : bool) (sv : saved) (c : wcfg) (es : list emit) : list sevent :=
+  match es with
+  | [] => []
+  | e :: r => let evs := sdeliver1 dc sc sv c e in evs ++ sdeliver_upd dc sc (commit_all sv evs) c r
+  end.
+
+(* ---- the two decoders of the generated files ---- *)
+Fixpoint strip_prefix (p b : bytes) : option bytes :=
+  match p, b with
+  | [], _ => Some b
+  | _ :: _, [] => None
+  | x :: p', y :: b' => if N.eqb x y then strip_prefix p' b' else None
+  end.
+Definition safe_char (x : byte) : bool :=                            (* a-z 0-9 _ *)
+  ((97 <=? x) && (x <=? 122) || (48 <=? x) && (x <=? 57) || (x =? 95))%N.
+Fixpoint span_safe (b : bytes) : bytes * bytes :=
+  match b with
+  | [] => ([], [])
+  | x :: r => if safe_char x then let '(a, t) := span_safe r in (x :: a, t) else ([], b)
+  end.
+Definition J_STREAM : bytes := [123;34;115;116;114;101;97;109;34;58;34]%N.      (* {qstreamq:q   (q = the double quote) *)
+Definition J_MID : bytes := [34;44;34;109;34;58;34]%N.                           (* q,qmq:q *)
+Definition J_M : bytes := [123;34;109;34;58;34]%N.                               (* {qmq:q *)
+Definition J_END : bytes := [34;125;10]%N.                                       (* q} newline *)
+Definition NOT_SET : bytes := [110;111;116;95;115;101;116]%N.                    (* pipeline.DefaultStreamName *)
+
+(* the json decoder on the lines the generators write: an object with the string fields stream = <name>, m = <pad> and an
+   object with the field m = <pad> alone (no stream field:
+   the event keeps the default stream name), name / pad over a-z 0-9 _; everything else the generators write (empty and
+   garbage lines, pieces of lines) is not valid JSON *)
+Definition json_decode (d : bytes) : option (bytes * bytes * bool) :=
+  match strip_prefix J_STREAM d with
+  | Some r =>
+      let '(name, r1) := span_safe r in
+      match strip_prefix J_MID r1 with
+      | Some r2 => let '(pad, r3) := span_safe r2 in if bytes_eqb r3 J_END then Some (name, pad, false) else None
+      | None => None
+      end
+  | None =>
+      match strip_prefix J_M d with
+      | Some r => let '(pad, r3) := span_safe r in if bytes_eqb r3 J_END then Some (NOT_SET, pad, false) else None
+      | None => None
+      end
+  end.
+
+(* decoder.DecodeCRI: time SP ... stream SP tags SP log; the stream is the first token of SIX bytes behind the time
+   (for len(stream) != 6 { ... }), the tags must not be empty, tags[0] = 'P' marks a partial row (log without its last byte) *)
+Fixpoint cut_sp (b : bytes) : option (bytes * bytes) :=                (* data[:pos], data[pos+1:] for pos = IndexByte(data, ' ') *)
+  match b with
+  | [] => None
+  | x :: r => if N.eqb x 32%N then Some ([], r)
+              else match cut_sp r with Some (a, t) => Some (x :: a, t) | None => None end
+  end.
+Fixpoint cri_stream (fuel : nat) (d : bytes) : option (bytes * bytes) :=
+  match fuel with
+  | O => None
+  | S f => match cut_sp d with
+           | None => None
+           | Some (tok, rest) => if len tok =? 6 then Some (tok, rest) else cri_stream f rest
+           end
+  end.
+Definition cri_decode (d : bytes) : option (bytes * bytes * bool) :=
+  match cut_sp d with
+  | None => None
+  | Some (_, r1) =>
+      match cri_stream (S (length r1)) r1 with
+      | None => None
+      | Some (stream, r2) =>
+          match cut_sp r2 with
+          | None => None
+          | Some ([], _) => None
+          | Some (t :: _, r3) =>
+              let partial := N.eqb t 80%N in
+              Some (stream, (if partial then removelast r3 else r3), partial)
+          end
+      end
+  end.
+
+Definition decoder_of (f : Z) : decoder := if f =? 1 then cri_decode else json_decode.
+
+(* ---- which 9: passes over a plain file ---- *)
+Record scase := { s_fmt : Z; s_thr : bool; s_cfg : wcfg; s_saved : saved; s_pre : bytes; s_rounds : list (bytes * nat) }.
+
+Definition saved_of_sx (s : sx) : option (bytes * Z) :=
+  match s with SL [SB n; SZ o] => if 0 <=? o then Some (n, o) else None | _ => None end.
+Fixpoint nodup_names (sv : saved) : bool :=
+  match sv with
+  | [] => true
+  | (n, _) :: r => negb (existsb (fun p => bytes_eqb (fst p) n) r) && nodup_names r
+  end.
+Definition s_start (sv : saved) : Z := match map snd sv with [] => 0 | o :: r => min_list o r end.
+
+Definition scase_of_sx (s : sx) : option scase :=
+  match s with
+  | SL [SZ f; thr; SZ mx; cut; SL svs; SB pre; rs] =>
+      match as_bool thr, as_bool cut, opt_map saved_of_sx svs, as_list round_of_sx rs with
+      | Some th, Some cu, Some sv, Some rl =>
+          if ((f =? 0) || (f =? 1)) && (0 <=? mx) && nodup_names sv
+          then Some {| s_fmt := f; s_thr := th; s_cfg := {| wmax := mx; wcut := cu |}; s_saved := sv; s_pre := pre; s_rounds := rl |}
+          else None
+      | _, _, _, _ => None
+      end
+  | _ => None
+  end.
+
+Definition s_trunc (st : wst) : wst := {| cur := 0; tail := []; skip := skip st |}.
+
+Fixpoint s_trace (dc : decoder) (sc : bool) (c : wcfg) (st : wst) (sv : saved) (file : bytes) (rl : list (bytes * nat))
+  : list (list sevent * wst) :=
+  match rl with
+  | [] => []
+  | (a, n) :: r =>
+      let file' := file ++ a in
+      let '(es, st1) := round c st (chunks n (drop (cur st) file')) in
+      let evs := sdeliver dc sc sv c es in
+      if cur st1 >? len file'                                       (* processEOF: totalOffset > stat.Size() -> truncateJob *)
+      then (evs, s_trunc st1) :: s_trace dc sc c (s_trunc st1) (saved_zero sv) file' r
+      else (evs, st1) :: s_trace dc sc c st1 sv file' r
+  end.
+
+Definition sx_of_sevent (e : sevent) : sx := let '(o, s, p) := e in SL [SZ o; SB s; SB p].
+Definition sx_of_spass (p : list sevent * wst) : sx :=
+  let '(evs, st) := p in
+  SL [SL (map sx_of_sevent evs); of_bool true; SZ (cur st); SZ (cur st); SB (tail st); of_bool (skip st)].
+
+Definition s_sc (k : scase) : bool := s_thr k && (s_fmt k =? 1).
+Definition c06s_model (k : scase) : sx :=
+  SL (map sx_of_spass (s_trace (decoder_of (s_fmt k)) (s_sc k) (s_cfg k)
+                               {| cur := s_start (s_saved k); tail := []; skip := false |} (s_saved k) (s_pre k) (s_rounds k))).
+
+Definition sevent_of_sx (s : sx) : option sevent :=
+  match s with SL [SZ o; SB n; SB p] => Some (o, n, p) | _ => None end.
+Definition sevent_eqb (a b : sevent) : bool :=
+  let '(o1, s1, p1) := a in let '(o2, s2, p2) := b in Z.eqb o1 o2 && bytes_eqb s1 s2 && bytes_eqb p1 p2.
+Definition is_nil {A} (l : list A) : bool := match l with [] => true | _ :: _ => false end.
+
+(* the property on what the implementation did. After every pass: the events that reached the output since the job was
+   added = the admitted, decodable lines of everything readable behind the start position p0, each line of stream s exactly
+   when s has no saved offset or the line ends ABOVE saved(s), once, in the order of the file (per stream: the order of
+   arrival), with its offset; position and tail are the specification's. Saved offsets behind the end of the file: the
+   pass delivers nothing and the job starts over at 0 with every saved offset 0. *)
+Fixpoint s_pred (dc : decoder) (sc : bool) (c : wcfg) (p0 : Z) (sv : saved) (file : bytes) (got : list sevent)
+         (rl : list (bytes * nat)) (obs : list sx) : bool :=
+  match rl, obs with
+  | [], [] => true
+  | (a, _) :: rl', SL [SL es; ord; SZ cu; SZ fpos; SB tl_; skp] :: obs' =>
+      let file' := file ++ a in
+      match opt_map sevent_of_sx es, as_bool ord, as_bool skp with
+      | Some es', Some true, Some false =>
+          if len file' <? p0 then
+            is_nil es' && (cu =? 0) && (fpos =? 0) && is_nil tl_
+            && s_pred dc sc c 0 (saved_zero sv) file' [] rl' obs'
+          else
+            let got' := got ++ es' in
+            forall2b sevent_eqb got' (filter (fun e => pass_event sv (ev_stream e) (ev_off e))
+                                             (sdecoded dc c (spec_emits c false p0 (drop p0 file'))))
+            && (cu =? len file') && (fpos =? cu) && tail_relb c tl_ (snd (split_lines (drop p0 file')))
+            && s_pred dc sc c p0 sv file' got' rl' obs'
+      | _, _, _ => false
+      end
+  | _, _ => false
+  end.
+
+Definition c06s_run (case obs : sx) : verdict :=
+  match scase_of_sx case with
+  | None => BadCase
+  | Some k =>
+      let m := c06s_model k in
+      let ok := match obs with
+                | SL ol => s_pred (decoder_of (s_fmt k)) (s_sc k) (s_cfg k) (s_start (s_saved k)) (s_saved k) (s_pre k) []
+                                  (s_rounds k) ol
+                | _ => false
+                end in
+      if ok then (if sx_eqb m obs then Agree else Differ m) else Violates m
+  end.
+
+(* ---- which 10: one pass over an lz4 file (the skip loop of which 6 | 7 in front of it) ---- *)
+Record szcase := { sz_fmt : Z; sz_thr : bool; sz_saved : saved; sz_z : zcase }.
+
+Definition szcase_of_sx (s : sx) : option szcase :=
+  match s with
+  | SL [SZ f; thr; SZ mx; cut; SL svs; SL fs; SZ n; SZ l] =>
+      match as_bool thr, as_bool cut, opt_map saved_of_sx svs, opt_map frame_of_sx fs with
+      | Some th, Some cu, Some sv, Some fl =>
+          if ((f =? 0) || (f =? 1)) && (0 <=? mx) && nodup_names sv && (1 <=? n) && ((l =? 0) || (l =? 1))
+          then Some {| sz_fmt := f; sz_thr := th; sz_saved := sv;
+                       sz_z := {| z_cfg := {| wmax := mx; wcut := cu |}; z_offs := map snd sv; z_frames := fl; z_n := Z.to_nat n |} |}
+          else None
+      | _, _, _, _ => None
+      end
+  | _ => None
+  end.
+
+Definition sz_sc (k : szcase) : bool := sz_thr k && (sz_fmt k =? 1).
+Definition c06sz_model (k : szcase) : sx :=
+  let '(L, es, st) := z_pass (sz_z k) in
+  SL [SL (map sx_of_sevent (sdeliver (decoder_of (sz_fmt k)) (sz_sc k) (sz_saved k) (z_cfg (sz_z k)) es));
+      of_bool true; SZ (cur st - L); SB (tail st); of_bool (skip st); of_bool true].
+
+(* the property: behind the smallest saved offset m exactly the lines PassEvent's rule selects from the whole content; of
+   what was read again in front of m (from the read buffer boundary the skip loop stopped at) nothing that ends at or below
+   the saved offset of its stream; order, tail, shouldSkip, the job is done *)
+Definition c06sz_pred (k : szcase) (obs : sx) : bool :=
+  let z := sz_z k in let c := z_cfg z in let b := z_content z in let m := z_min z in let sv := sz_saved k in
+  match obs with
+  | SL [SL es; ord; SZ _; SB tl_; skp; dn] =>
+      match opt_map sevent_of_sx es, as_bool ord, as_bool skp, as_bool dn with
+      | Some es', Some true, Some false, Some true =>
+          forall2b sevent_eqb (filter (fun e => m <? ev_off e) es')
+                   (filter (fun e => m <? ev_off e)
+                           (filter (fun e => pass_event sv (ev_stream e) (ev_off e))
+                                   (sdecoded (decoder_of (sz_fmt k)) c (spec_emits c false 0 b))))
+          && forallb (fun e => pass_event sv (ev_stream e) (ev_off e)) es'
+          && ((len b <? m) || tail_relb c tl_ (snd (split_lines b)))
+      | _, _, _, _ => false
+      end
+  | _ => false
+  end.
+
+Definition c06sz_run (case obs : sx) : verdict :=
+  match szcase_of_sx case with
+  | None => BadCase
+  | Some k =>
+      let z := sz_z k in
+      if negb (line_end (z_min z) (z_content z) || (len (z_content z) <? z_min z)) then BadCase else
+      let m := c06sz_model k in
+      if c06sz_pred k obs then (if sx_eqb m obs then Agree else Differ m) else Violates m
+  end.
+
 Definition c06_entry (which : Z) (case obs : sx) : verdict :=
   match which with
   | 0 | 1 => c06_run which case obs
@@ -953,6 +1258,8 @@ Definition c06_entry (which : Z) (case obs : sx) : verdict :=
   | 4 | 5 => c06h_run (which - 4) case obs
   | 6 | 7 => c06z_run (which - 6) case obs
   | 8 => c06e_run case obs
+  | 9 => c06s_run case obs
+  | 10 => c06sz_run case obs
   | _ => match c06_ci_model case with
          | Some m => exact_verdict m obs
          | None => BadCase
